@@ -99,6 +99,8 @@ func main() {
 			cases = append(cases, names.TagsC11(r)...)
 			cases = append(cases, names.IfaceC11(r)...)
 			cases = append(cases, names.UntypedC11(r)...)
+			cases = append(cases, names.TestFileC11()...)
+			cases = append(cases, names.MethodsC11(r)...)
 			cases = append(cases, names.TwoPackagesC11()...)
 		case "C12":
 			n, m := 30, 300
@@ -110,6 +112,7 @@ func main() {
 			cases = append(cases, names.WeirdC12(r, 3*n)...)
 			cases = append(cases, names.MultiC12(r, n)...)
 			cases = append(cases, names.FixedC12()...)
+			cases = append(cases, names.DotImportC12()...)
 			cases = append(cases, names.CaptureC12(r, m)...)
 			cases = append(cases, names.F13Case())
 		default:
